@@ -216,6 +216,17 @@ func replayWorldState(sc *Scenario, evs []Ev, fl *FrameLog, m *wsModel, inv int)
 		m.storage[a] = map[common.Hash]common.Hash{}
 	}
 	m.dead = map[common.Address]bool{}
+	// EIP-161: an account that is empty at the end of the transaction (no nonce, no
+	// balance, no code) is deleted together with whatever storage was written under
+	// its address (e.g. by a top-level CALLCODE/DELEGATECALL whose caller account
+	// was destroyed earlier)
+	if eip158 {
+		for a, st := range m.storage {
+			if len(st) > 0 && m.nonce[a] == 0 && m.balOf(a).Sign() == 0 && m.code[a] == (common.Hash{}) {
+				m.storage[a] = map[common.Hash]common.Hash{}
+			}
+		}
+	}
 }
 
 // snapshot renders the model in the shape of the executor's account observation.
